@@ -44,12 +44,13 @@ def gen(rng, tier):
     for _ in range(25 if tier == 'quick' else 300):
         r = rng.random()
         ar = rng.random() < .2      # un-normalised knot ranges hit the recorded finding F-01
-        if r < .5:
-            d = S.rand_curve(rng, maxp=4, allow_range=ar)
-        elif r < .9:
-            d = S.rand_surface(rng, maxp=3, max_interior=2, allow_range=ar)
+        cl = rng.random() < .75       # unclamped knot vectors: the domain ends are NOT the first / last knot
+        if r < .4:
+            d = S.rand_curve(rng, maxp=4, allow_range=ar, clamped=cl)
+        elif r < .8:
+            d = S.rand_surface(rng, maxp=3, max_interior=2, allow_range=ar, clamped=cl)
         else:
-            d = S.rand_volume(rng, maxp=2, max_interior=1, allow_range=ar)
+            d = S.rand_volume(rng, maxp=2, max_interior=1, allow_range=ar, clamped=cl)
         hi = 12 if d['kind'] == 'curve' else (6 if d['kind'] == 'surface' else 4)
         sizes = [rng.randint(2, hi) for _ in S.dirs(d)]
         deltas = [(kv[n_] - kv[p]) / sz for (p, kv, n_), sz in zip(S.dirs(d), sizes)]
@@ -140,7 +141,7 @@ def oracle(c):
             return "float sample-size probe failed: %s" % (p.stderr.strip().splitlines() or ['?'])[-1]
         bad = json.loads(p.stdout)['bad']
         if bad:
-            return "floating point: sample_size = %d yields %d evaluated points (curve), first of %d such sizes" % (bad[0][0], bad[0][1], len(bad))
+            return "floating point: sample size %d yields %d evaluated points (curve, or surface with 3 in the other direction), first of %d such sizes" % (bad[0][0], bad[0][1], len(bad))
         return None
     if c.kind == 'grid':
         import itertools
